@@ -364,6 +364,15 @@ _amend("C16", "rule", "supplied as annotation, service config or both.", "suppli
 _amend("C18", "rule", "transport (HTTP POST/GET, gRPC, gRPC-web),", "transport (HTTP POST/GET - the GET optionally with a stray body the binding does not map -, gRPC, gRPC-web), local service or RegisterConn-proxied backend, handler header/trailer metadata,")
 _amend("C19", "rule", "plus unknown and absent service).", "plus unknown and absent service; 1 case in 8 also follows a service through the documented WebSocket binding and must see its current and every later status).")
 
+_amend("C01", "rule", "Non-trivial", "One request in four carries a decoy query parameter naming a string field that some template of the rule set binds (it may fill a field the matched template does not bind, never displace a captured one). Non-trivial")
+_amend("C04", "rule", "GET or POST,", "GET or POST (the POST body optionally gzip-compressed with Content-Encoding: gzip),")
+_amend("C05", "rule", "Non-trivial", "One gRPC-family call in three negotiates per-message gzip (request and replies compressed). Non-trivial")
+_amend("C12", "rule", "TestPropStress: 2-12 readers x 20-80 request rounds", "TestPropStress: 0-3 connections registered beforehand, 2-12 readers running until both writers are done (at least 20-80 request rounds; a Solo method with a single annotated binding and a single owner is probed with a 44 KB query and must answer 200 or 404, never 501)")
+_amend("C13", "rule", "release order drawn;", "release order drawn; one call in six instead downloads a blob that the handler serves from memory outliving the call, and after every interleaving the blobs must be byte-identical to their pristine copies;")
+_amend("C16", "rule", "nested additional_bindings,", "nested additional_bindings, a variable nested in another variable's pattern after an arbitrary valid prefix,")
+_amend("C18", "rule", "0-4 replies,", "0-4 replies (un.All, or google.api.HttpBody on the unary and server-streaming raw methods),")
+_amend("C19", "rule", "compared annotation vs config);", "compared annotation vs config; in 1 case of 4 the selected method also carries an annotation of its own on the same verb and path position that maps differently, and the configured rule must still be the one in force);")
+
 # native coverage-guided fuzzing of the same generators (thorough tier only)
 for _k, _t in (("C01", "FuzzRoute"), ("C03", "FuzzTranscode"), ("C16", "FuzzRegister"), ("C17", "FuzzCodec")):
     PROPS[_k]["fuzz"] = {"target": _t, "seconds": 120}
